@@ -175,15 +175,17 @@ Theorem C08_example_full_derived :
 Proof. split; [exact example_fullD|exact example_derive]. Qed.
 Print Assumptions C08_example_full_derived.
 
-(* serialisation itself fails in full mode, with the derived values computed: builtin module (F4), and a namespace
-   package none of whose directories lies below the working directory (F13) -- which serialises from elsewhere *)
-Theorem C08_refuted_full_namespace :
+(* serialisation itself fails in full mode, with the derived values computed, for a builtin module only (F4); a namespace
+   package none of whose directories lies below the working directory (was F13, repaired by bb0db70) serialises with the
+   absolute path of its first directory and round-trips *)
+Theorem C08_fixed_full_namespace :
   enc_fullD (root_ctx w_cwd) (w_module [] FPNone) = Err EBuiltin /\
-  (let t := w_module [] (FPList ["/q/ns"]) in
-   rep t = true /\ enc_fullD (root_ctx w_cwd) t = Err EValue /\
-   exists j, enc_fullD (root_ctx ["/"; "q"]) t = Ok j /\ decode j = Ok (PTree t)).
-Proof. split; [exact refuted_fullD_builtin|exact refuted_fullD_namespace]. Qed.
-Print Assumptions C08_refuted_full_namespace.
+  (let t := w_module [] (FPList ["/q/ns"; "/r/ns"]) in
+   rep t = true /\
+   g_relative (derive (root_ctx w_cwd) t) = Ok (JStr "/q/ns") /\ g_relative (derive (root_ctx ["/"; "r"]) t) = Ok (JStr "ns") /\
+   (exists j, enc_fullD (root_ctx w_cwd) t = Ok j /\ decode j = Ok (PTree t))).
+Proof. split; [exact refuted_fullD_builtin|exact fixed_fullD_namespace]. Qed.
+Print Assumptions C08_fixed_full_namespace.
 
 (* ---- the text level (Model/C08_text.v): [dumps] = json.dumps with the default separators and ensure_ascii,
    [loads] = json.loads (recursive descent over the text, strict strings), strings are sequences of code points < 256 *)
@@ -294,3 +296,18 @@ Theorem C08_hook_agrees_on_json :
   loads_hook "[{""cls"": ""ExprBogus""}, }" = TErr EAttr /\ loads_hook "[1, }" = TJson.
 Proof. split; [exact hook_agrees_on_json|exact example_hook]. Qed.
 Print Assumptions C08_hook_agrees_on_json.
+
+(* F14: names bound by the expression itself (no parent since 1071289) are attached to the scope by a reload *)
+Theorem C08_refuted_links_local :
+  let e := VNode "ExprListComp"
+             [("element", VName "i" LNone);
+              ("generators", VList [VNode "ExprComprehension"
+                                      [("conditions", VList []); ("is_async", VBool false); ("iterable", nm "xs"); ("target", VName "i" LNone)]])] in
+  wf_slot e = true /\ canon e = false /\ slot_restored e = false /\
+  attach_top (reload_ev e)
+  = VNode "ExprListComp"
+      [("element", VName "i" LScope);
+       ("generators", VList [VNode "ExprComprehension"
+                               [("conditions", VList []); ("is_async", VBool false); ("iterable", nm "xs"); ("target", VName "i" LScope)]])].
+Proof. exact refuted_links_local. Qed.
+Print Assumptions C08_refuted_links_local.
